@@ -29,14 +29,14 @@ Definition w_cont_cond : program := [[one (Loop false [one (Leaf (LContinue 1))]
 (** f0() { break; }; for v in 1 2; do f0; echo "?=$?"; done     brush: "not yet implemented", 99 *)
 Definition w_fn_break : program :=
   [[one (FunDef 0 (Brace [one (Leaf (LBreak 1))])); one (For false 2 [one (Leaf (LCall 0)); probe])]].
-(** true | exit 3; echo m1              brush: the parent shell exits *)
+(** true | exit 3; echo m1              (repaired) brush used to exit the parent shell *)
 Definition w_stage_leak : program := [[((false, [tt; Leaf (LExit (Some 3))]), []); mark 1]].
-(** ( ! exit 3 ); echo "?=$?"           brush: 0; bash: 3 *)
+(** ( ! exit 3 ); echo "?=$?"           (repaired) brush used to print 0; bash: 3 *)
 Definition w_bang_exit : program := [[one (Subshell [neg (Leaf (LExit (Some 3)))]); probe]].
 (** for v in 1; do while ! break; do echo m1; done; echo "?=$?"; done      brush: 1; bash: 0 *)
 Definition w_cond_status : program :=
   [[one (For false 1 [one (Loop false [neg (Leaf (LBreak 1))] [mark 1]); probe])]].
-(** set -e; { false && true; }; echo m1     brush: exits 1; bash: goes on (C03) *)
+(** set -e; { false && true; }; echo m1     (repaired) brush used to exit 1; bash: goes on (C03) *)
 Definition w_compound : program :=
   [[one (Leaf (LSet OErrexit true)); one (Brace [((false, [ff]), [(true, (false, [tt]))])]); mark 1]].
 
@@ -50,14 +50,17 @@ Lemma cont_cond_refuted : differs 20 w_cont_cond /\ scope_program w_cont_cond = 
 Proof. split; [vm_compute; discriminate|reflexivity]. Qed.
 Lemma fn_break_refuted : differs 20 w_fn_break /\ scope_program w_fn_break = [RStray].
 Proof. split; [vm_compute; discriminate|reflexivity]. Qed.
-Lemma stage_leak_refuted : differs 20 w_stage_leak /\ ghost_of (run_model 20 w_stage_leak) = [GLeak].
-Proof. split; [vm_compute; discriminate|reflexivity]. Qed.
-Lemma bang_exit_refuted : differs 20 w_bang_exit /\ ghost_of (run_model 20 w_bang_exit) = [GBang].
-Proof. split; [vm_compute; discriminate|reflexivity]. Qed.
+(** regressions: on the repaired [Pipeline::execute] the former witnesses agree with the spec *)
+Definition agrees (fuel : nat) (p : program) : Prop :=
+  obs_model (run_model fuel p) = obs_spec (run_spec fuel p) /\ ghost_of (run_model fuel p) = [].
+Lemma stage_leak_repaired : agrees 20 w_stage_leak /\ obs_model (run_model 20 w_stage_leak) = Some (ENormal, 0, [EMark 1]).
+Proof. split; [split|]; vm_compute; reflexivity. Qed.
+Lemma bang_exit_repaired : agrees 20 w_bang_exit /\ obs_model (run_model 20 w_bang_exit) = Some (ENormal, 0, [EProbe 3]).
+Proof. split; [split|]; vm_compute; reflexivity. Qed.
 Lemma cond_status_refuted : differs 20 w_cond_status /\ ghost_of (run_model 20 w_cond_status) = [GCond].
 Proof. split; [vm_compute; discriminate|reflexivity]. Qed.
-Lemma compound_refuted : differs 20 w_compound /\ ghost_of (run_model 20 w_compound) = [GCompound].
-Proof. split; [vm_compute; discriminate|reflexivity]. Qed.
+Lemma compound_repaired : agrees 20 w_compound /\ obs_model (run_model 20 w_compound) = Some (ENormal, 0, [EMark 1]).
+Proof. split; [split|]; vm_compute; reflexivity. Qed.
 
 (** a program inside the hypotheses of the theorem that exercises loops with break/continue at
     two levels, a counter-driven while, if/elif, case fallthrough, a function with return, a
